@@ -169,7 +169,7 @@ def showVal : Val → String
 
 def dumpShM (s : ShState) : String :=
   s!"val={showVal s.val} param={b2s s.param} strict={b2s s.strict} cons={showCons s.cons} " ++
-  s!"valid={b2s s.valid} dim={dimensionality s.cons s.strict} ignored={b2s s.val.ignored}"
+  s!"valid={b2s s.valid} dim={dimensionality s.cons s.strict} ignored={b2s s.val.ignored} live={b2s s.live}"
 
 def dumpShS (s : ShState) : String :=
   s!"val={showVal s.val} cons={showCons (sortCons s.cons)} valid={b2s s.validSpec}"
@@ -179,6 +179,7 @@ def parseShOp? (toks : List String) : Option ShOp :=
   | ["srecon", d, z] => do some (.recon (← parseInt? d) (← parseSize? z))
   | ["sassign", v] => do some (.assign (← parseVal? v))
   | ["sstrict", b] => do some (.setStrict (← parseBool? b))
+  | ["slive", b] => do some (.setLive (← parseBool? b))
   | _ => none
 
 /-! ### driver state -/
@@ -207,8 +208,8 @@ def dstep (st : DState) (line : String) : DState × String :=
     | some (.ok m) => (.f m (sabs m), both "ok")
     | some (.error e) => (.idle, both ("err " ++ showErr e))
     | none => (st, "bad-op")
-  | ["sbegin", strict, param, val, cons] =>
-    match (do some (shConstruct (← parseCons? cons) (← parseBool? strict) (← parseBool? param) (← parseVal? val))
+  | ["sbegin", strict, param, val, cons, live] =>
+    match (do some (shConstruct (← parseCons? cons) (← parseBool? strict) (← parseBool? param) (← parseVal? val) (← parseBool? live))
             : Option (Except Err ShState)) with
     | some (.ok s) => (.sh s, both "ok")
     | some (.error e) => (.idle, both ("err " ++ showErr e))
